@@ -1139,7 +1139,7 @@ unknown:
 const maxAlloc = 1 << 30
 
 func tupleRepeat(elems Tuple, n Int) (Tuple, error) {
-	if len(elems) == 0 {
+	if len(elems) == 0 || n.Sign() <= 0 {
 		return nil, nil
 	}
 	i, err := AsInt32(n)
@@ -1171,7 +1171,7 @@ func bytesRepeat(b Bytes, n Int) (Bytes, error) {
 }
 
 func stringRepeat(s String, n Int) (String, error) {
-	if s == "" {
+	if s == "" || n.Sign() <= 0 {
 		return "", nil
 	}
 	i, err := AsInt32(n)
